@@ -382,3 +382,21 @@ def run_lines(exe, stdin_text=None, args=(), timeout=600, env=None):
     """run a harness; return (rc, stdout lines, stderr)"""
     p = sh([exe] + list(args), timeout=timeout, env=env, stdin=stdin_text)
     return p.returncode, p.stdout.splitlines(), p.stderr
+
+
+def apalache_inductive(module, timeout=1500):
+    """Init => IndInv and IndInv /\\ Next => IndInv' for spec/<module>.tla (typed, with CInit) by Apalache.
+    Returns None when both obligations are discharged; raises Infra otherwise (a failed induction is a model defect)."""
+    import shutil, tempfile
+    work = tempfile.mkdtemp(prefix="apa_", dir=BUILD)
+    try:
+        shutil.copy(os.path.join(VERIF, "spec", module + ".tla"), work)
+        for init, length in (("Init", "0"), ("IndInv", "1")):
+            p = subprocess.run(["timeout", str(timeout), "apalache-mc", "check", "--cinit=CInit", "--init=" + init, "--inv=IndInv", "--length=" + length, module + ".tla"],
+                               cwd=work, capture_output=True, text=True)
+            if "The outcome is: NoError" not in p.stdout:
+                if "The outcome is: Error" in p.stdout:
+                    raise Infra("%s: IndInv is not inductive (obligation starting from %s) - model defect: %s" % (module, init, p.stdout[-800:]))
+                raise Infra("apalache-mc did not finish on %s (%s): %s %s" % (module, init, p.stdout[-600:], p.stderr[-300:]))
+    finally:
+        shutil.rmtree(work, ignore_errors=True)
